@@ -98,7 +98,10 @@ def _check_maxvol_contract(cfg, o, main_from):
 def fault_family(tn, cfg0, every=1):
     """every budget, every None position, every callback sweep for one configuration (nswp-bounded)"""
     base = dict(cfg0, m=None, kNone=None, kcb=None)
-    o = L.run_impl(tn, base)
+    try:
+        o = L.run_impl(tn, base)
+    except L.TooLong:
+        return [base]          # the caller runs it again and records "run did not stop"
     out = []
     if o['exc'] is not None:
         return out
@@ -165,7 +168,7 @@ def correspondence(R, ctx):
             # every generated configuration has a criterion that bounds the run (or must be rejected): a run that
             # exceeds the call limit is a disagreement with the model (termination theorems), never skipped
             toolong.append(dict(stream='cross_replay', input=[tag, L.describe(cfg)], model='terminates / ValueError',
-                                impl='objective called more than 4000 times'))
+                                impl='run did not stop (more than 4000 objective calls / 6000 requests / 60 s)'))
             continue
         o = it.pop('_o')
         items.append(it)
@@ -206,7 +209,8 @@ def oracle(tn, cfg):
     try:
         o = L.run_impl(tn, cfg)
     except L.TooLong:
-        return fail('run did not stop within the call limit')
+        return fail('run did not stop: more than 4000 objective calls / 6000 requests / 60 s although a criterion '
+                    '(nswp, finite budget m, conv with a cache) must fire')
     d, ns = len(cfg['ns']), cfg['ns']
     vld = cfg['hasI'] and cfg['hasy']
     no_crit = (cfg['m'] is None and cfg['e'] is None and cfg['nswp'] is None and (not vld or cfg['e_vld'] is None))
@@ -257,7 +261,8 @@ def oracle(tn, cfg):
             return fail('without cache every requested index must be evaluated', got=[total_req, ev_rows])
     else:
         if info['m_cache'] != total_req - ev_rows:
-            return fail('info[m_cache] differs from requested - evaluated', got=info['m_cache'],
+            return fail('info[m] + info[m_cache] differs from the total number of requested indices (batches served '
+                        'entirely from the cache included)', got=info['m_cache'],
                         expected=total_req - ev_rows)
         exp = {tuple(k): float(v) for k, v in cfg['cache']}
         for b in rec['batches']:
